@@ -1,8 +1,13 @@
 pub mod c01;
 pub mod c02;
 pub mod c03;
+pub mod c04;
+pub mod c05;
 pub mod nearmiss_streams;
 pub mod c06;
+pub mod c07;
+pub mod c11;
+pub mod c15;
 pub mod common;
 pub mod c20;
 pub mod genpool;
@@ -10,5 +15,5 @@ pub mod genpool;
 use crate::run::PropertyDef;
 
 pub fn all() -> Vec<PropertyDef> {
-    vec![c01::def(), c02::def(), c03::def(), c06::def(), c20::def()]
+    vec![c01::def(), c02::def(), c03::def(), c04::def(), c05::def(), c06::def(), c07::def(), c11::def(), c15::def(), c20::def()]
 }
